@@ -201,6 +201,7 @@ R4_EXCEPTIONS = {
 
 
 def run(ctx):
+    ctx.guard("C16.R12", "evaluation steps reach their evaluator through State::holding: T is put back into the scope it came from", lambda: __import__("c02").r4_holding(ctx, "C16.R12"))
     ctx.guard("C16.K17", "constructor fidelity", lambda: __import__("ctor").check_for(ctx, "C16", 72))
     F = ctx.facts
     state = {}
@@ -513,7 +514,7 @@ def r10_documented_requirements(ctx):
     ctx.count("documented_parameter_sets", n)
 
 
-def r11_nested_loops(ctx):
+def r11_nested_loops(ctx, rule="C16.R11"):
     """K6 (borrowing C03's bounded program semantics): the shape every ILS template has - init; while outer { perturb;
     scope { while inner { step } }; replace } - and the plain shape of all other templates - init; while { body } - perform
     exactly the scripted number of passes of each loop: the inner loop of the scope counts in its own counter, the outer
@@ -540,8 +541,8 @@ def r11_nested_loops(ctx):
                 n += 1
                 if why:
                     bad.append((name, progsem.show(t), outer, list(inner), why))
-    ctx.check(not bad, "C16.R11", cfgrun.key, "requested-number-of-passes",
+    ctx.check(not bad, rule, cfgrun.key, "requested-number-of-passes",
               "template shape %s `%s` with %s outer passes and inner passes %s: the configuration %s" % (bad[0] if bad else ("", "", "", "", "")),
               detail="%d runs" % n, loc=cfgrun.loc())
     ctx.count("nested_loop_runs", n)
-    ctx.floor("C16.R11", "nested loop runs", n, 30)
+    ctx.floor(rule, "nested loop runs", n, 30)
